@@ -760,8 +760,13 @@ func runGatedNoGuard(c tcase, gate string) string {
 		if strings.HasPrefix(gate, "C") {
 			tail = " gerr=-"
 		} else if gate != "" {
-			if gate[2] == '2' || gate[3] == '1' {
-				return "bad-op" // an unblocked case runs over the case's own roots, all files
+			if (gate[3] == '1' && len(cfg.ScanRoots) == 1) || (gate[3] == '0' && gate[2] == '2') {
+				return "bad-op" // specific files from ONE root / an extra empty root: allowed, but not what the scan model describes
+			}
+			if gate[3] == '1' {
+				// the gate should have stopped this scan (several roots + specific files) and did not: report what ran
+				return fmt.Sprintf("st=%s gerr=- gcalls=%s gx=%d gn=%d", map[bool]string{true: "ok", false: "failed"}[res.Status.Status == plugin.ScanStatusSucceeded],
+					hx.Join(w.calls, ","), w.xcalls, len(res.Inventory.Findings)+len(res.Inventory.Packages)+len(res.PluginStatus))
 			}
 			tail = " gerr=-"
 		}
